@@ -1135,3 +1135,73 @@ def rule_no_module_state(ctx, chk, rule, roots, what):
     if not n:
         chk.ok(rule, ", ".join(sorted({g.mod.name for g in scope})), "%d functions (%s): no module-level state written, none memoised" % (len(scope), what))
     return n
+
+
+def rule_no_keyed_collapse(ctx, chk, rule, only=None):
+    """No kernel of a node class funnels its successor list through a dictionary keyed by a PART of the transition (the successor
+    index, the label): two transitions that agree in that part - parallel edges, one label on two moves - overwrite each other and
+    one of them disappears from what is computed (a probability share, an optimal action).  `only`: method names to look at."""
+    from . import kernels as K
+    from . import C13 as _C13
+    from ..symx import C, simp
+    from ..nf import SELF_NEXT
+    hits = n = 0
+    for role, cls, m, f in _C13.node_kernels(ctx):
+        if only is not None and m not in only:
+            continue
+        try:
+            k = K.kernel(ctx, cls, m)
+        except Exception:
+            continue
+        for lid, L in k.sx.loops.items():
+            le = k.listexpr(L.source) if L.source != SELF_NEXT else None
+            over_s = L.source == SELF_NEXT or (le is not None and le[0] == SELF_NEXT)
+            if not over_s:
+                continue
+            n += 1
+            el = ("elem", lid)
+            parts = {simp(("idx", el, C(0))): "label / probability", simp(("idx", el, C(1))): "successor index"}
+            if le is not None and le[2] != ("e",):
+                continue            # the loop runs over values computed from the transitions: their slots mean something else
+            keyed = None
+            if L.kind == "for":
+                for v, u in L.update.items():
+                    if u is not None and u[0] == "setitem" and u[1] == ("acc", lid, v) and u[2] in parts and L.init.get(v) in (("dict", ()), ("call", "dict", (), ())):
+                        used = any(t == ("res", lid, v) for t in _terms_of_kernel(k))
+                        if used:
+                            keyed = (v, u[2])
+            elif getattr(L, "ckind", None) == "dict" and getattr(L, "key", None) in parts:
+                keyed = ("<dict comprehension>", L.key)
+            if keyed:
+                hits += 1
+                chk.violation(rule, f.where(), "%s.%s collects its transitions in a dictionary keyed by the %s (`%s[%s] = ...`): two transitions with the same %s - parallel edges - "
+                              "overwrite each other, so one of them is missing from what is computed" % (cls, m, parts[keyed[1]], keyed[0], show_(keyed[1]), parts[keyed[1]]),
+                              expected="every transition of the list takes part", found="dict keyed by %s" % show_(keyed[1]), construct="%s.%s keyed collapse" % (cls, m))
+    if not hits:
+        chk.ok(rule, "tad.py node classes", "no kernel funnels its transitions through a dictionary keyed by the successor or the label (%d loops over successor lists examined)" % n)
+    return hits
+
+
+def show_(t):
+    from ..symx import show
+    return show(t)
+
+
+def _terms_of_kernel(k):
+    from . import C02
+    out = list(C02._sub(k.ret)) if k.ret is not None else []
+    for e in k.sx.final.effects:
+        out += C02._sub(e)
+    for L in k.sx.loops.values():
+        for u in list(L.init.values()) + list(L.update.values()):
+            if isinstance(u, tuple):
+                out += C02._sub(u)
+        for e in L.effects:
+            out += C02._sub(e)
+        if L.elt is not None:
+            out += C02._sub(L.elt)
+        for c in (L.filters or []):
+            out += C02._sub(c)
+        if isinstance(L.source, tuple):
+            out += C02._sub(L.source)
+    return out
